@@ -167,6 +167,7 @@ func (s *State) havocAllHeap(why string) {
 }
 
 type Exec struct {
+	noAssume map[string]bool // obligations (func#kind:label) of other properties that failed: checked but not assumed afterwards
 	prog      *Program
 	fn        *ssa.Function
 	contract  *FuncContract
@@ -299,6 +300,16 @@ func (s *State) oblige(kind, label string, goal *T, pos token.Pos, text string, 
 		PathDesc: strings.Join(s.Trace, " "),
 	}
 	x.obls = append(x.obls, ob)
+}
+
+// assumeAfter continues under the assumption that a just-emitted obligation holds, unless that obligation belongs to
+// another property and is known to fail (assuming it would make everything downstream vacuous).
+func (s *State) assumeAfter(kind, label string, g *T) {
+	x := s.X
+	if x.noAssume != nil && x.noAssume[fmt.Sprintf("%s#%s:%s", x.prog.shortName(x.fn), kind, label)] {
+		return
+	}
+	s.Assume(g)
 }
 
 func (s *State) tr(format string, args ...interface{}) {
